@@ -548,6 +548,8 @@ func planInlining(c *Ctx) []inlineSite {
 				case *ast.ExprStmt:
 					if h.noReturn && h.results == 0 && inList(pt) {
 						kind = "stmt"
+					} else if h.results == 0 && inList(pt) {
+						kind = "stmtloop" // early returns: the body runs inside a labelled one-pass loop, `return` becomes `break`
 					}
 				case *ast.GoStmt:
 					if pt.Call == call && h.results == 0 {
@@ -954,6 +956,20 @@ func expandSite(s inlineSite, files map[string]*parsedFile) bool {
 		simplifyAddr(nb)
 		betaReduce(nb)
 		return replaceStmt(st, []ast.Stmt{nb})
+	case "stmtloop":
+		st := findStmtOf()
+		if _, ok := st.(*ast.ExprStmt); !ok {
+			return false
+		}
+		nb := cloneAST(body, hf.fset, subst, renameLocals).(*ast.BlockStmt)
+		simplifyAddr(nb)
+		label := "inl" + suffix
+		replaceOwnReturns(nb, func(rs *ast.ReturnStmt) ast.Stmt {
+			return &ast.BranchStmt{Tok: token.BREAK, Label: ast.NewIdent(label)}
+		})
+		nb.List = append(nb.List, &ast.BranchStmt{Tok: token.BREAK, Label: ast.NewIdent(label)})
+		loop := &ast.LabeledStmt{Label: ast.NewIdent(label), Stmt: &ast.ForStmt{Body: nb}}
+		return replaceStmt(st, []ast.Stmt{loop})
 	case "go":
 		st := findStmtOf()
 		gs, ok := st.(*ast.GoStmt)
@@ -1020,20 +1036,42 @@ func expandSite(s inlineSite, files map[string]*parsedFile) bool {
 			lhsNames = append(lhsNames, nm)
 		}
 		conv, ok := tailAssign(nb.List, lhsNames)
-		if !ok {
-			return false
-		}
 		left := false
-		for _, cs := range conv {
-			inspectNoLit(cs, func(x ast.Node) bool {
-				if _, isRet := x.(*ast.ReturnStmt); isRet {
-					left = true
-				}
-				return true
-			})
+		if ok {
+			for _, cs := range conv {
+				inspectNoLit(cs, func(x ast.Node) bool {
+					if _, isRet := x.(*ast.ReturnStmt); isRet {
+						left = true
+					}
+					return true
+				})
+			}
 		}
-		if left {
-			return false
+		if !ok || left {
+			// returns in nested positions (inside loops, switches): run the body inside a labelled one-pass
+			// loop; `return e..` becomes `lhs.. = e..; break label`
+			nb = cloneAST(body, hf.fset, subst, renameLocals).(*ast.BlockStmt)
+			simplifyAddr(nb)
+			label := "inl" + suffix
+			bad := false
+			replaceOwnReturns(nb, func(rs *ast.ReturnStmt) ast.Stmt {
+				if len(rs.Results) != len(lhsNames) {
+					bad = true
+					return rs
+				}
+				var lhs []ast.Expr
+				for _, nm := range lhsNames {
+					lhs = append(lhs, ast.NewIdent(nm))
+				}
+				return &ast.BlockStmt{List: []ast.Stmt{
+					&ast.AssignStmt{Lhs: lhs, Tok: token.ASSIGN, Rhs: rs.Results},
+					&ast.BranchStmt{Tok: token.BREAK, Label: ast.NewIdent(label)},
+				}}
+			})
+			if bad {
+				return false
+			}
+			conv = []ast.Stmt{&ast.LabeledStmt{Label: ast.NewIdent(label), Stmt: &ast.ForStmt{Body: nb}}}
 		}
 		var pre []ast.Stmt
 		if as.Tok == token.DEFINE || len(blank) > 0 {
@@ -1111,6 +1149,39 @@ func expandSite(s inlineSite, files map[string]*parsedFile) bool {
 		return done
 	}
 	return false
+}
+
+// replaceOwnReturns replaces every return statement of the block itself
+// (not those of nested function literals) by what mk gives for it.
+func replaceOwnReturns(b *ast.BlockStmt, mk func(*ast.ReturnStmt) ast.Stmt) {
+	var lists func(n ast.Node)
+	fix := func(list []ast.Stmt) {
+		for i, st := range list {
+			if rs, ok := st.(*ast.ReturnStmt); ok {
+				list[i] = mk(rs)
+			}
+		}
+	}
+	lists = func(n ast.Node) {
+		ast.Inspect(n, func(x ast.Node) bool {
+			switch t := x.(type) {
+			case *ast.FuncLit:
+				return false
+			case *ast.BlockStmt:
+				fix(t.List)
+			case *ast.CaseClause:
+				fix(t.Body)
+			case *ast.CommClause:
+				fix(t.Body)
+			case *ast.LabeledStmt:
+				if rs, ok := t.Stmt.(*ast.ReturnStmt); ok {
+					t.Stmt = mk(rs)
+				}
+			}
+			return true
+		})
+	}
+	lists(b)
 }
 
 // buildInlinedOverlay produces the normalised sources (file -> content) and
@@ -1240,6 +1311,9 @@ func buildInlinedOverlay(c *Ctx, base map[string][]byte) (map[string][]byte, int
 // nothing was expanded or the expanded program does not type-check.
 func LoadNormalised(c *Ctx) (*Ctx, int, error) {
 	overlay := map[string][]byte{}
+	for f, src := range c.Overlay {
+		overlay[f] = src // the un-renamed text, if any, is what gets expanded
+	}
 	cur := c
 	total := 0
 	for round := 0; round < 4; round++ {
